@@ -1,21 +1,14 @@
-"""Per-property configuration of the check driver."""
+"""Per-property configuration of the check driver: one JSON file per property under /verif/props/."""
+import json
+import os
 
+_D = os.path.join(os.path.dirname(os.path.dirname(os.path.dirname(os.path.abspath(__file__)))), "props")
 PROPS = {}
-NOT_YET = {}
-HOOK_COMMITS = []
+for _f in sorted(os.listdir(_D)):
+    if _f.endswith(".json") and not _f.startswith("_"):
+        PROPS[_f[:-5]] = json.load(open(os.path.join(_D, _f)))
 
-PROPS["C17"] = dict(
-    coq_dir="C17", bin="c17", n_quick=2400, n_thorough=40000,
-    level_text="Theorems about a Gallina model of both TcpStream state machines, for every message list, every chunking / acceptance pattern and every placement of would-block steps (unbounded induction over the socket script); model tied to the real TcpStream by running identical socket scripts on both.",
-    level_note="Trusted: Coq kernel; hand-written model (tie measured by the correspondence run); the harness's scripted socket. Not modelled: TLS/QUIC wrappers, idle timeout, real sockets.",
-    anchors=[],
-    trusted_base=[
-        "model coq/C17/Model.v hand-written from crates/net/src/tcp/tcp_stream.rs (poll_next send and receive loops)",
-        "scripted DnsTcpStream in the harness (socket contract: a read returns 0 < n <= buf.len() bytes or 0 at EOF; a write accepts 1 <= n <= offered)",
-    ],
-    assumptions=[
-        "socket contract as scripted; poll_flush always ready; Ok(0) from poll_write (would spin) excluded",
-        "TLS/QUIC streams, TimeoutStream idle timer and the mpsc outbound queue are outside the model",
-    ],
-    explanation="Theorems: the outcome of the receive machine depends only on the concatenated payload (any chunking, any Pending positions); well-formed streams yield exactly the messages; close inside prefix/body and zero-length frames yield the stated error; the send machine hands the socket a prefix of the framed stream for every acceptance pattern and all of it given enough accepting calls; end-to-end composition. Tie: every generated script is run on the real TcpStream and on the model inside Coq.",
-)
+# reasons for properties not claimed (yet)
+NOT_YET = json.load(open(os.path.join(_D, "_not_claimed.json"))) if os.path.exists(os.path.join(_D, "_not_claimed.json")) else {}
+# commits in /repo that add cfg(hickory_dns_verif) hooks
+HOOK_COMMITS = json.load(open(os.path.join(_D, "_hook_commits.json"))) if os.path.exists(os.path.join(_D, "_hook_commits.json")) else []
